@@ -16,10 +16,17 @@ var nowTime = time.Now
 // This installs a hook into the login process so that the
 // LastAction is recorded immediately.
 func Setup(ab *authboss.Authboss) error {
-	ab.Events.After(authboss.EventAuth, func(w http.ResponseWriter, r *http.Request, handled bool) (bool, error) {
+	stamp := func(w http.ResponseWriter, r *http.Request, handled bool) (bool, error) {
 		refreshExpiry(w)
 		return false, nil
-	})
+	}
+
+	// Every event after which a session is issued: without a stamp the
+	// session has no last action and counts as live however long it idles
+	// before its first request through the middleware.
+	ab.Events.After(authboss.EventAuth, stamp)
+	ab.Events.After(authboss.EventOAuth2, stamp)
+	ab.Events.After(authboss.EventRegister, stamp)
 
 	return nil
 }
